@@ -2,6 +2,7 @@ package harness
 
 import (
 	"verifharness/sim"
+	"verifharness/worlds/kv"
 	"verifharness/worlds/lock"
 	"verifharness/worlds/timer"
 )
@@ -14,4 +15,5 @@ type worldDef struct {
 var worlds = map[string]worldDef{
 	"timer": {New: timer.New, Generate: timer.Generate},
 	"lock":  {New: lock.New, Generate: lock.Generate},
+	"kv":    {New: kv.New, Generate: kv.Generate},
 }
